@@ -73,7 +73,7 @@ def _twins(tier):
         if not any(g[v] for v in g):
             continue
         for kind in ("letters", "longer", "exotic"):
-            yield {**c, "twin": kind, "depth": 2 if q else 3, "ops": ops}
+            yield {**c, "twin": kind, "depth": 2, "ops": ops}  # depth 3 on the thorough roots costs more than half an hour
 
 
 def fresh(n, seq, pairs):
